@@ -274,7 +274,7 @@ def run(ctx, tier):
     # phase 1x: the call is made from INSIDE the caller's exception handler (a fallback after a failed look-up: `except KeyError:
     # pos = position_with_ref(...)`) - a bare `raise` in the library then re-raises the caller's exception instead of its own
     nxh = 0
-    for i in order[:1500]:
+    for i in order[:8000]:
         fn, a, k, want = rec[i]
         try:
             raise KeyError("the caller's own look-up failed")
@@ -372,7 +372,7 @@ def run(ctx, tier):
     # half-updated memo / scratch state from the one that died
     nx = 0
     if descend > 50:
-        for i, h in [(i_, h_) for i_ in order[:300] for h_ in range(-7, 14)]:
+        for i, h in [(i_, h_) for h_ in range(-7, 14) for i_ in order[:500]]:   # (headroom outermost: consecutive calls are different calls)
             fn, a, k, want = rec[i]
             try:
                 tight = _deep(descend + 80 - h, lambda: probe.call(fn, *_copy(a), **_copy(k)))
